@@ -26,6 +26,7 @@ from ..extract import writeorder as _wo
 from ..extract import mutorder as _mo
 from ..extract import linkorder as _lo
 from ..extract import copyorder as _co
+from ..extract import frameshape as _fs         # C16's translator of data_frame.py: frame_write_refused_unchanged rests on it
 from ..extract import datasetshape as _ds       # C01's compiler of data_set.py: append_refused_unchanged rests on it
 
 PROP = "C12"
@@ -74,6 +75,8 @@ THEOREMS = [
     "Nix.C12.append_refused_unchanged",
     "Nix.C12.data_step_refused_unchanged",
     "Nix.C12.data_history_skips_refused",
+    "Nix.C12.frame_write_refused_unchanged",
+    "Nix.C12.frame_history_skips_refused",
 ]
 ASSUMPTIONS = [
     "uuid4 ids are drawn from an abstract fresh supply; no link of the file is named like an id not yet drawn "
@@ -159,7 +162,8 @@ MANIFEST = {
                   "late_name_check_counterexample proves the order before the repairs wrong. "
                   "(6) DataSet.append / write_direct / __setitem__ / data_extent: append_refused_unchanged and "
                   "data_step_refused_unchanged restate, on the definitions C01 compiles from data_set.py, that a raised step "
-                  "leaves extent, elements, element type and filter flag as they were (the roll-back of append). "
+                  "leaves extent, elements, element type and filter flag as they were (the roll-back of append); "
+                  "frame_write_refused_unchanged does the same for every DataFrame write on C16's model of data_frame.py. "
                   "Tied to the code by differential execution: random histories with injected invalid calls (HDF5-level "
                   "dump after the refusal compared with the writer model's reached graph, then the same call with a valid "
                   "argument) and random vector assignments (dataset read back with h5py). An implementation-side oracle "
@@ -172,7 +176,7 @@ MANIFEST = {
                   "the translators' reading of the statements; h5py/HDF5 link and resize semantics modelled, not "
                   "verified; the event classification of mutorder.py is by method name and the 15 mutators listed in "
                   "Props/C12.lean `writesFirst` are exempt from the order theorem (covered by the writer model or the oracle "
-                  "only). Partial: frame contents are leaf nodes - refusals of DataFrame writes, dimension setters (labels, unit, label, "
+                  "only). Partial: refusals of dimension setters (labels, unit, label, "
                   "offset, interval), Property attribute setters, Section item assignment "
                   "and File-level deletes have no theorem: they are checked by the oracle (catalogue + spelling "
                   "sweep) on the implementation only. Tag.units / MultiTag.units / SetDimension.labels: only their common "
@@ -195,6 +199,7 @@ def extract(repo):
     files.update(_lo.extract(repo))
     files.update(_co.extract(repo))
     files.update(_ds.extract(repo))
+    files.update(_fs.extract(repo))
     return files
 
 
